@@ -37,6 +37,9 @@ def has_nested_conflict(l, r, depth=0):
 
 def check_merge(rec: Rec, docs):
     from schwifty import registry
+    if not hasattr(registry, "merge_dicts"):
+        rec.excluded["unit level skipped: registry.merge_dicts not present (refactored); end-to-end part decides"] += 1
+        return
     inp = {"docs": docs}
     before = copy.deepcopy(docs)
     try:
@@ -65,6 +68,9 @@ def v2_strategy():
 
 def check_v2(rec: Rec, doc):
     from schwifty import registry
+    if not hasattr(registry, "parse_v2"):
+        rec.excluded["unit level skipped: registry.parse_v2 not present (refactored); end-to-end part decides"] += 1
+        return
     want = oreg.expand_v2(copy.deepcopy(doc))
     try:
         got = registry.parse_v2(copy.deepcopy(doc))
